@@ -22,9 +22,11 @@ PLAN = {
             "must_hit": ["C05.send_limit"]},
     "C06": {"rules": ["C06."], "families": ["mixA"], "slices": [], "level": "exploration", "must_hit": ["C06.progress"]},
     "C07": {"rules": ["C07."], "families": WIRE_AB, "slices": [], "level": "exploration", "must_hit": ["C07.resolved"]},
+    "C08": {"rules": ["C08."], "families": WIRE_AB, "slices": [], "level": "exploration", "must_hit": []},
     "C14": {"rules": ["C14.", "C12.out_size"], "families": WIRE_AB, "slices": [], "level": "exploration",
             "must_hit": ["C14.settings_ack", "C14.pong", "C14.all_acked"]},
     "C15": {"rules": ["C15."], "families": WIRE_AB, "slices": [], "level": "exploration", "must_hit": []},
     "C16": {"rules": ["C16."], "families": WIRE_AB, "slices": [], "level": "exploration", "must_hit": ["C16.nonzero", "C16.stream_bound"]},
+    "C19": {"rules": ["C19."], "families": WIRE_AB, "slices": [], "level": "exploration", "must_hit": []},
     "C17": {"rules": ["C17."], "families": WIRE_AB, "slices": [], "level": "exploration", "must_hit": ["C17.single_rst"]},
 }
